@@ -202,6 +202,96 @@ class C07(IRProp):
                     dist={"cases": len(runs), "registrations_by_scope": kinds, "register_errors": sum(1 for _, r in self._runs7 if r[3] is None),
                           "apply_errors": sum(1 for _, r in self._runs7 if r[5] is not None and r[3] is not None)})
 
+    # ---- histories: a function inserted in the same context; a second context over the rewritten blocks
+    def history(self, seed):
+        """Two clauses that need more than one registration round.  (1) A context that also inserts a function: the scopes designate
+        blocks of the module as it was handed over, so no patch of a scope registration runs for a block of the new function ("and in
+        no other block").  (2) A second RewritingContext over the same block objects after the first one changed how blocks end (a
+        conditional jump appended to a block that fell through; a label in front of a `ret`, which moves the `ret` into a block of its
+        own): EXIT is in front of the terminator the block has NOW, read off the bytes with the vocabulary's own encodings."""
+        import random
+        import gtirb
+        import gtirb_functions
+        import gtirb_rewriting
+        from gtirb_rewriting import AllBlocksScope, BlockPosition, SingleBlockScope
+        rnd = random.Random(seed ^ 0x5a5a)
+        case = irgen.Case(rnd, with_aux=False, with_cfi=False, mods="ins", max_mods=0, with_scope=False)
+        B = irgen.build(case)
+        code = [i for i, x in enumerate(case.blocks) if x["kind"] == "c"]
+        ctx = gtirb_rewriting.RewritingContext(B.m, B.fobjs)
+        ran = []
+
+        def marker(tag, text="nop"):
+            @gtirb_rewriting.patch_constraints()
+            def patch(c):
+                ran.append((tag, c.block, c.offset))
+                return text
+            return gtirb_rewriting.Patch.from_function(patch)
+
+        @gtirb_rewriting.patch_constraints()
+        def body(c):
+            return "nop\njne .Lnf\nnop\n.Lnf:\nret"
+        with_fn = rnd.random() < 0.5
+        if with_fn:
+            ctx.register_insert_function("newfn", gtirb_rewriting.Patch.from_function(body))
+        pos1 = rnd.choice([BlockPosition.ENTRY, BlockPosition.EXIT, BlockPosition.ANYWHERE])
+        ctx.register_insert(AllBlocksScope(pos1), marker("all"))
+        # patches that change how a block ends
+        for i in code:
+            x = case.blocks[i]
+            k = rnd.random()
+            if k < 0.35 and x["ins"][-1][0] not in irgen.TERMINATORS:
+                ctx.insert_at(B.gbs[i], case.size(i), marker("end", f"jne L{rnd.choice(code)}"))
+            elif k < 0.6 and x["ins"][-1][0] == "ret" and len(x["ins"]) > 1:
+                ctx.insert_at(B.gbs[i], case.bounds(i)[-2], marker("lab", "nop\n.Lhh:"))
+        originals = list(B.gbs)
+        try:
+            ctx.apply()
+        except Exception as e:   # noqa
+            return None
+        for tag, blk, off in ran:
+            if tag == "all" and not any(blk is g for g in originals):
+                return f"a context that inserts a function: the patch of an AllBlocksScope registration ran for a block that is not one of the module's blocks (size {blk.size}, offset {off})"
+        n_all = sum(1 for tag, blk, off in ran if tag == "all")
+        if n_all != len(code):
+            return f"AllBlocksScope registration ran {n_all} times, the module had {len(code)} code blocks"
+        # second context over the rewritten module
+        m = B.m
+        blocks = [b for b in m.byte_blocks if isinstance(b, gtirb.CodeBlock) and b.size]
+        ctx2 = gtirb_rewriting.RewritingContext(m, gtirb_functions.Function.build_functions(m))
+        ran.clear()
+        for b in blocks:
+            ctx2.register_insert(SingleBlockScope(b, BlockPosition.EXIT), marker(id(b)))
+        want = {}
+        encs = sorted(irgen.ENC.items(), key=lambda kv: -len(kv[1]))
+        for b in blocks:
+            data = bytes(b.byte_interval.contents[b.offset:b.offset + b.size])
+            o, last = 0, None
+            while o < len(data):
+                hit = None
+                for k, e in encs:
+                    oplen = {"jmp": 1, "jcc": 2, "call": 1}.get(k)
+                    if (data[o:o + oplen] == e[:oplen] and o + len(e) <= len(data)) if oplen else data[o:o + len(e)] == e:
+                        hit = (k, len(e))
+                        break
+                if hit is None:
+                    last = None
+                    break
+                last = (hit[0], o)
+                o += hit[1]
+            if last is None:
+                continue            # bytes outside the vocabulary (the inserted function's own code is decoded too: it is inside)
+            want[id(b)] = last[1] if last[0] in irgen.TERMINATORS else b.size
+        try:
+            ctx2.apply()
+        except Exception as e:   # noqa
+            return None
+        for tag, blk, off in ran:
+            if tag in want and off != want[tag]:
+                return (f"second context over a rewritten module: EXIT of a block of {blk.size + 0} bytes resolved to offset {off}, its terminator "
+                        f"(by its bytes) starts at {want[tag]}")
+        return None
+
     # ---- the specification, written independently of the model
     def oracle(self, tier, ctx, boosted):
         runs = getattr(self, "_runs7", None)
@@ -215,7 +305,31 @@ class C07(IRProp):
             v = self.check_case(case, regs, B, plans, seen)
             if v:
                 bads.append(dict(what=v, input={"seed": sd, "regs": repr(regs)}, finding=None))
+        nh = 0
+        for sd, _ in runs:
+            if sd % 2 == 0 or boosted:
+                nh += 1
+                v = self.history(sd)
+                if v:
+                    bads.append(dict(what=v, input={"seed": sd, "history": True}, finding=None))
+        self._nh = nh
         return dict(evaluations=len(runs), violations=bads[:10], samples=[{"oracle": self.oracle_text}])
+
+    def replay(self, path):
+        import json
+        d = json.load(open(path))
+        print(json.dumps(d, indent=1)[:3000])
+        v = d.get("violation")
+        if v and "seed" in v.get("input", {}):
+            sd = v["input"]["seed"]
+            if v["input"].get("history"):
+                got = self.history(sd)
+            else:
+                case, regs, B, plans, seen, err = self.run_one(sd)
+                got = None if plans is None or err is not None else self.check_case(case, regs, B, plans, seen)
+            print("replayed:", got or "no violation on the current tree")
+            return 1 if got else 0
+        return 0
 
     def check_case(self, case, regs, B, plans, seen):
         fname = [f.get_name() for f in B.fobjs]
